@@ -155,7 +155,10 @@ def run_harnesses(prop, names, tier, repo="/repo", jobs=4):
                 if p["status"] == "fail":
                     r["failed_check"] = "; ".join(p["failed_checks"])[:600]
                     r["output"] = _section(out, n)
-                    r["playback"] = _playback(dst, n, h)
+                    # a concrete counterexample is extracted for the first two failing harnesses only (each extraction is
+                    # another CBMC run; a change that breaks a whole tiled domain would otherwise cost one per range)
+                    nplay = sum(1 for x in results if x.get("status") == "fail")
+                    r["playback"] = _playback(dst, n, h) if nplay < 2 else None
             results.append(r)
         return results
     finally:
